@@ -162,6 +162,17 @@ def _kind(v):
     return k
 
 
+def _flat(seq, upto):
+    """Do all items of the sequence have a kind <= upto (immutable values)? Decided on the set of item types."""
+    for t in set(map(type, seq)):
+        k = _KINDS.get(t)
+        if k is None:
+            return False        # type not classified yet: take the slow path, which classifies it
+        if k > upto:
+            return False
+    return True
+
+
 def _copy(v):
     """Deep copy by value of one piece of internal state; locks are re-created (not held), callables shared."""
     k = _KINDS.get(type(v))
@@ -171,7 +182,7 @@ def _copy(v):
         return v
     if k == _K_SEQ:
         t = type(v)
-        items = [_copy(x) for x in v]
+        items = list(v) if _flat(v, _K_TIME) else [_copy(x) for x in v]
         return items if t is list else (tuple(items) if t is tuple else collections.deque(items, v.maxlen))
     if k == _K_DICT:
         return {key: _copy(x) for key, x in v.items()}
@@ -220,6 +231,8 @@ def _time_marks(v, now, cap, out, path=()):
     if k == _K_DICT or k == _K_OBJ:
         items = (v if k == _K_DICT else v.__dict__).items()
     elif k == _K_SEQ:
+        if _flat(v, _K_ATOM):
+            return
         items = enumerate(v)
     else:
         return
@@ -230,6 +243,8 @@ def _time_marks(v, now, cap, out, path=()):
         if kx == _K_ATOM:
             continue
         if kx == _K_TIME:
+            if x.tzinfo is not None:
+                x = x.replace(tzinfo=None)
             if x >= _EPOCH:
                 out.append((path + (key,), min(cap, int((now - x).total_seconds())) if cap else True))
         elif kx <= _K_OBJ and len(path) < 6:
@@ -401,8 +416,10 @@ class Model:
             marks = []
             # a mark can matter only through "elapsed >= a configured limit": capped at the largest limit
             _time_marks(vars(t), now, max(lcap or 0, icap or 0) or None, marks)
-        except Exception as e:  # noqa: BLE001 - only after a violating (never expanded) transition
-            return ("unobservable", type(e).__name__, str(e))
+        except Exception as e:  # noqa: BLE001
+            if st.obs is not None:
+                raise
+            return ("unobservable", type(e).__name__, str(e))     # after a violating (never expanded) transition
         return (
             o["phase"], o["status_phase"], o["stats_phase"], o["is_active"], o["is_operational"],
             o["length"], o["remaining"], o["stats_length"], o["errors"], o["ops"],
@@ -416,9 +433,9 @@ class Model:
         )
 
     def observe(self, st):
-        t = st.tel
         vclock.use(st.clock)
-        return (t.get_phase().value, t.get_status().telomere_length, min(t.get_statistics()["error_count"], 4))
+        o = st.obs or observe(st.tel)
+        return (o["phase"], o["length"], min(o["errors"], 4))
 
     # ---- one transition + oracle ----------------------------------------------------
     def step(self, st, op):
@@ -739,7 +756,8 @@ def run(ctx):
              "silent on/off), in a process that holds two other lifecycles (one TERMINATED, one ACTIVE); family 0 = callbacks "
              "subscribed + silent at full depth, family 1 = the other callback/silent/limit-value combinations one level "
              "shallower (see family0/family1); every operation of the alphabet applied in every distinct canonical "
-             "state (phase, length, error/operation counts, started, capped elapsed times, reference counters); "
+             "state (public observations: phase by every accessor, length, error/operation counts, age; every internal "
+             "time mark found by a name-free walk over vars(), as capped elapsed time; reference counters); "
              "distinct/non-trivial = distinct canonical state",
         exhaustive=not res["capped"],
         fixpoint=res["fixpoint"],
@@ -763,8 +781,9 @@ def run(ctx):
     ctx.assumptions += [
         "CoopLock has the mutual-exclusion semantics of threading.Lock/RLock; a self re-acquire of a non-re-entrant "
         "lock in sequential code never returns (HangDetected)",
-        "time is the virtual clock bound to telomere.datetime; elapsed times are capped at their limit in the state key "
-        "(sound: time only grows and comparisons are against the limit)",
+        "time is the virtual clock bound to telomere.datetime; elapsed times of internal time marks are capped at the "
+        "largest configured limit in the state key (sound if time marks matter only through comparisons of elapsed time "
+        "against a configured limit: time only grows); lifecycle-event log records are not part of the state key",
         "violating transitions are not expanded (state after a hang is undefined)",
         "the library's console output with silent=False is discarded, not judged",
         "notification callbacks are benign (record and return); raising callbacks are outside the statement",
